@@ -149,7 +149,7 @@ pub fn generate(rng: &mut Rng, thorough: bool, out: &mut Out) {
         let (q, r) = run_sweep(prof, path, 0.0, false, true);
         out.case(q, r);
     }
-    let n = if thorough { 12000 } else { 900 };
+    let n = if thorough { 12000 } else { 2400 };
     let max_n = if thorough { 60 } else { 24 };
     for i in 0..n {
         let prof = profile_cw(rng, max_n);
